@@ -2,7 +2,7 @@
 Engine E1: every registered function x every admissible argument count x argument
 tuples over a fixed value pool (full product for low arity, default call with a
 bounded number of deviating positions above)."""
-import sys, itertools, inspect, functools
+import sys, re, itertools, inspect, signal, resource
 from mc.core import Fail, result
 from ref import arity as A
 from ref.values import literal
@@ -11,11 +11,13 @@ MANIFEST = {
     'engine': 'E1',
     'technique': 'bounded exhaustive enumeration of function x argument count x argument-kind tuples on the real code; '
                  'totality, well-formedness and an error-preservation table as oracle',
-    'text': 'Every key of the function table (completeness asserted against a hand-written table of Excel argument counts) is called '
-            'through the single-formula path with every admissible argument count (variadic functions: min..min+3) and argument tuples '
-            'over a fixed pool of 24 values of every kind (numbers, text, logicals, blank reference, the 7 errors, two array literals, '
-            'a range with a blank, an empty-text cell): the full product for <= 2 arguments (thorough <= 3), a benign default call with '
-            '<= 2 (thorough <= 3) positions replaced by every pool value above that; thorough also passes every argument through cell references. '
+    'text': 'Every key of the function table (completeness asserted against a hand-written table of Excel argument counts, itself audited '
+            'against the 5 625 corpus formulas Excel accepted) is called through the single-formula path with every admissible argument '
+            'count (variadic functions: min..min+3) and argument tuples over a fixed pool of 24 values of every kind (7 numbers, 3 texts, '
+            'TRUE/FALSE, a blank reference, the 7 errors, two array literals, a range with a blank, an empty-text cell): the full product '
+            'for <= 2 arguments (thorough <= 3); above that a benign default call with every single position, and every pair of positions '
+            '(thorough: every triple), replaced by pool values - pairs at >= 4 arguments (thorough: triples) draw from a 12-value '
+            'sub-pool of kind representatives.  Thorough repeats the quick bound with every argument passed through cell references. '
             'Exhaustive within these bounds, nothing sampled.',
     'note': 'Trusted: ref/arity.py (Excel argument counts, default calls, table of positions whose error is certainly consumed). '
             'Only escapes, ill-formed values and lost errors are judged, not the values themselves; values outside the pool, more than '
@@ -25,16 +27,19 @@ RULE = ('every (function key, argument count, spelling mode, deviating positions
         'implementation; distinct = distinct case key')
 ASSUMPTIONS = [
     'argument counts, default calls and the consumed-position table are my reading of Excel\'s function reference (ref/arity.py)',
-    '(c) is asserted for a scalar error in every position except: IFERROR IFNA IS* T (inspect/handle errors); COUNT COUNTA COUNTBLANK '
+    '(c) is asserted for a scalar error in every position except: IFERROR IFNA IS* (inspect/handle errors); COUNT COUNTA COUNTBLANK '
     'COUNTIF SUMIF AVERAGEIF (errors are data/criteria); IF (condition + the selected branch) IFS SWITCH (first position only); '
     'INDEX (row/column numbers) MATCH (value, match type) LOOKUP VLOOKUP HLOOKUP (value, index, mode) FILTER (include); ROW COLUMN; '
-    'ADDRESS sheet text; NPV value arguments (Excel\'s reference says error values there are ignored); DUMMYFUNCTION',
+    'DUMMYFUNCTION.  T, ADDRESS sheet text and NPV values are asserted because Excel\'s cached values in the corpus show the error',
     '(c) for an error inside an array argument is asserted only for aggregations (SUM family, statistics, AND/OR/XOR, GCD/LCM, CONCAT, '
     'TEXTJOIN texts, LARGE/SMALL/PERCENTILE/QUARTILE data, matrix functions) and, as "the result grid contains an error", for '
-    'scalar-parameter functions when every other argument is a scalar; not for CORREL SLOPE FORECAST IRR XIRR XNPV TRANSPOSE SINGLE MUNIT',
+    'scalar-parameter functions when every other argument is a scalar; not for CORREL SLOPE FORECAST IRR NPV XIRR XNPV TRANSPOSE SINGLE MUNIT T',
     'volatile functions NOW TODAY RAND RANDBETWEEN get (a) and (b) only',
     'positions where Excel accepts only a reference (ROW COLUMN COUNTBLANK COUNTIF/SUMIF/AVERAGEIF ranges) always receive ranges',
     'ARRAY/ARRAYROW are the library\'s array-literal constructors, exercised as ={...} literals with constant elements',
+    'two array arguments with shapes that cannot be stretched onto each other (e.g. 2x2 with 1x4): the library raises BroadcastError by '
+    'design (its own test_cell.test_invalid pins it), so an escape is accepted for exactly these tuples; a returned value is still judged',
+    'a call that does not return within 2 s of CPU time (ordinary calls: 3 ms) is reported as class "hangs"',
     'argument counts that the implementation\'s innermost signature cannot bind (a guaranteed TypeError -> #VALUE!) are skipped and '
     'listed in coverage.unbindable_counts',
 ]
@@ -89,19 +94,50 @@ def kind(v):
     return v[1] if v[0] == 'e' else v[0]
 
 
-def run_case(case):
+class Hang(BaseException):
+    """raised from the CPU-time alarm: the call did not return."""
+
+
+def _alarm(*a):
+    raise Hang()
+
+
+CPU_LIMIT = 2.0          # seconds of process CPU time per call (ordinary calls take ~3 ms, the slowest 0.15 s)
+MEM_LIMIT = 6 << 30      # address space: a call that asks for more gets MemoryError instead of taking the machine down
+_limits_set = []
+
+
+def evaluate(f, inputs, grid_ref):
     from xl.evalcell import eval_formula
+    if not _limits_set:
+        _limits_set.append(1)
+        soft, hard = resource.getrlimit(resource.RLIMIT_AS)
+        if soft == resource.RLIM_INFINITY or soft > MEM_LIMIT:
+            resource.setrlimit(resource.RLIMIT_AS, (MEM_LIMIT, hard))
+        signal.signal(signal.SIGPROF, _alarm)
+    signal.setitimer(signal.ITIMER_PROF, CPU_LIMIT, 0.25)      # re-fires in case the library swallows the first one
+    try:
+        return eval_formula(f, inputs, ref=grid_ref, scalar=False)
+    except Hang:
+        return ('BAD', 'hang:no result within %gs CPU' % CPU_LIMIT)
+    finally:
+        signal.setitimer(signal.ITIMER_PROF, 0)
+
+
+def run_case(case):
     name, nargs, mode, devs = case
     b = A.base_name(name)
     f, inputs, args, tags = build(case)
     grid_ref = 'A1:D2' if any(A.is_array(a) for a in args) or b in A.INTERNAL else 'A1'
-    got = eval_formula(f, inputs, ref=grid_ref, scalar=False)
+    got = evaluate(f, inputs, grid_ref)
     fields = dict(func=name, base=b, nargs=nargs, mode=mode, formula=f, devpos=','.join(str(p) for p, _ in devs),
                   devtags='|'.join(A.TAGS[i] for _, i in devs), args='|'.join(tags))
     fields.update({'a%d' % p: t for p, t in enumerate(tags)})
     fails = []
+    if isinstance(got, tuple) and got[1] in ('exc:BroadcastError', 'missing-output') and A.mismatched(args):
+        return result(1, ['%d:accepted-broadcast-escape' % min(nargs, 3)])
     if isinstance(got, tuple):                       # (a) an escape
-        cls = 'missing-output' if got[1] == 'missing-output' else 'raises'
+        cls = 'missing-output' if got[1] == 'missing-output' else 'hangs' if got[1].startswith('hang') else 'raises'
         fails.append(Fail(cls, got=got[1], exp='an Excel value', gotk=got[1], **fields))
         return result(1, ['%d:%s' % (min(nargs, 3), got[1])], fails)
     flat = [x for row in got for x in row]
@@ -124,70 +160,178 @@ def run_case(case):
     return result(1, ['%d:%s:%s' % (min(nargs, 3), shape, 'BAD' if bad else kind(top))], fails)
 
 
+# --- oracle audit against Excel's cached values (DESIGN.md 3.2) --------------------------------------------------------
+
+CORPUS = '/repo/test/test_files/test.xlsx'
+_CALL = re.compile(r'([A-Za-z_][A-Za-z0-9_.]*)\(')
+_CELL = re.compile(r'\$?([A-Z]{1,3})\$?(\d+)$')
+_RNG = re.compile(r'\$?([A-Z]{1,3})\$?(\d+):\$?([A-Z]{1,3})\$?(\d+)$')
+
+
+def _split(s):
+    out, depth, cur, q = [], 0, '', False
+    for ch in s:
+        if q or ch == '"':
+            q = (not q) if ch == '"' else q
+        elif ch in '({':
+            depth += 1
+        elif ch in ')}':
+            depth -= 1
+        if ch == ',' and depth == 0 and not q:
+            out.append(cur)
+            cur = ''
+        else:
+            cur += ch
+    return out + [cur]
+
+
+def _calls(f):
+    """(NAME, [argument texts], start, end) of every call in a formula text."""
+    for m in _CALL.finditer(f):
+        if f[:m.start()].count('"') % 2:
+            continue
+        i, depth, q = m.end(), 1, False
+        while i < len(f) and depth:
+            ch = f[i]
+            if q or ch == '"':
+                q = (not q) if ch == '"' else q
+            elif ch == '(':
+                depth += 1
+            elif ch == ')':
+                depth -= 1
+            i += 1
+        inner = f[m.end():i - 1]
+        yield m.group(1).upper(), (_split(inner) if inner.strip() else []), m.start(), i
+
+
+def _val(x):
+    from ref.values import N, T, B, BLANK
+    if x is None:
+        return BLANK
+    if isinstance(x, bool):
+        return B(x)
+    if isinstance(x, (int, float)):
+        return N(x)
+    return ('e', x) if x in A.ERRS else T(str(x))
+
+
+def _arg(ws, a):
+    a = a.strip()
+    m = _CELL.match(a)
+    if m:
+        return _val(ws[m.group(1) + m.group(2)].value)
+    m = _RNG.match(a)
+    if m:
+        return ('arr', [[_val(c.value) for c in row] for row in ws['%s%s:%s%s' % m.groups()]])
+    if re.fullmatch(r'-?\d+(\.\d+)?', a):
+        return ('n', float(a))
+    if re.fullmatch(r'"[^"]*"', a):
+        return ('t', a[1:-1])
+    if a in ('TRUE', 'FALSE'):
+        return ('b', a == 'TRUE')
+    return ('e', a) if a in A.ERRS else None
+
+
+def audit():
+    """ref/arity.py against the 5 6xx corpus formulas and the values Excel computed for them:
+    (1) every call in the corpus has an argument count the table admits (Excel accepted it);
+    (2) for every single-cell formula =NAME(cells | ranges | constants): where the (c) table demands an error,
+        Excel's value is an error.  Returns a summary; a disagreement is an oracle error (never a VIOLATION)."""
+    import openpyxl
+    wf, wv = openpyxl.load_workbook(CORPUS), openpyxl.load_workbook(CORPUS, data_only=True)
+    nform, ncalls, nobl, funcs, bad = 0, 0, 0, set(), []
+    for ws in wf.worksheets:
+        wsv = wv[ws.title]
+        for row in ws.iter_rows():
+            for c in row:
+                f = c.value
+                arrayf = hasattr(f, 'text')
+                f = f.text if arrayf else f
+                if not (isinstance(f, str) and f.startswith('=')):
+                    continue
+                nform += 1
+                cs = list(_calls(f))
+                for name, args, s, e in cs:
+                    b = A.base_name(name)
+                    if b in A.ARITY:
+                        lo, hi, _ = A.ARITY[b]
+                        ncalls += 1
+                        if len(args) < lo or (hi is not None and len(args) > hi):
+                            bad.append('arity %s/%d in %s!%s %s' % (b, len(args), ws.title, c.coordinate, f))
+                if arrayf or not cs or cs[0][2] != 1 or cs[0][3] != len(f) or A.base_name(cs[0][0]) not in A.ARITY:
+                    continue
+                vals = [_arg(wsv, a) for a in cs[0][1]]
+                if any(v is None for v in vals):
+                    continue
+                # an 'any' obligation speaks about the whole result grid; a plain cell shows one element only
+                if any(how == 'top' for _, how in A.expect_error(cs[0][0], vals)):
+                    nobl += 1
+                    funcs.add(A.base_name(cs[0][0]))
+                    if _val(wsv[c.coordinate].value)[0] != 'e':
+                        bad.append('error-preservation %s!%s %s: Excel gives %r' % (ws.title, c.coordinate, f, wsv[c.coordinate].value))
+    return {'corpus_formulas': nform, 'calls_with_admitted_count': ncalls, 'error_obligations_confirmed_by_excel': nobl,
+            'functions_with_confirmed_obligations': len(funcs), 'disagreements': bad}
+
+
 # --- the case space -----------------------------------------------------------------------------------------------
 
 def max_bindable(fn):
-    """largest positional argument count the innermost python signature can bind; None = unknown / unbounded."""
-    extra = 0
-    if isinstance(fn, dict):
-        extra = len(fn.get('extra_inputs', ()))
-        fn = fn['function']
+    """largest positional argument count the innermost python signature can bind; None = unknown / unbounded.
+    Used one way only: a count Excel admits but the signature cannot take would be a guaranteed TypeError -> #VALUE!."""
+    fn = fn['function'] if isinstance(fn, dict) else fn
     try:
-        f = inspect.unwrap(fn)
-        while isinstance(f, functools.partial) and not f.args:
-            g = inspect.unwrap(f.func)
-            if g is f.func and not isinstance(g, functools.partial):
-                break
-            f = g
-        ps = inspect.signature(f).parameters.values()
+        ps = inspect.signature(inspect.unwrap(fn)).parameters.values()
     except (ValueError, TypeError):
         return None
     if any(p.kind == p.VAR_POSITIONAL for p in ps):
         return None
-    return sum(p.kind in (p.POSITIONAL_ONLY, p.POSITIONAL_OR_KEYWORD) for p in ps) - (0 if extra == 0 else 0)
+    return sum(p.kind in (p.POSITIONAL_ONLY, p.POSITIONAL_OR_KEYWORD) for p in ps)
 
 
 def plan(tier, functions):
-    """[(name, nargs, mode, full_product?, k)] and the list of skipped (name, nargs)."""
-    full, k = (3, 3) if tier == 'thorough' else (2, 2)
-    modes = ['lit', 'ref'] if tier == 'thorough' else ['lit']
+    """[(name, nargs, mode, full_product?, k, reps_from)] and the list of skipped 'name/nargs'.
+    k = max number of deviating positions; subsets of >= reps_from positions draw from the REPS sub-pool."""
+    thorough = tier == 'thorough'
     out, skipped = [], []
     for name in sorted(functions):
         b = A.base_name(name)
+        # a key bound to the very same object as its base name is explored with one deviation less
         alias = name != b and b in functions and functions[name] is functions[b]
         mb = None if b in A.INTERNAL else max_bindable(functions[name])
         for n in A.counts(name):
             if mb is not None and n > mb:
                 skipped.append('%s/%d' % (name, n))
                 continue
-            for mode in (['lit'] if b in A.INTERNAL else modes):
-                # a key bound to the very same object as its base name is explored with one deviation less
-                kk = k - 1 if alias else k
-                ff = full - 1 if alias else full
-                if mode == 'ref' and tier == 'thorough':
-                    ff, kk = min(ff, 2), min(kk, 2)
-                out.append((name, n, mode, n <= ff, kk))
+            full, k = (3, 3) if thorough else (2, 2)
+            reps_from = 3 if thorough or n <= 3 else 2
+            if alias:
+                full, k = full - 1, k - 1
+            out.append((name, n, 'lit', n <= full, k, reps_from))
+            if thorough and b not in A.INTERNAL:       # every argument through cell references, at the quick bound
+                q = 1 if alias else 2
+                out.append((name, n, 'ref', n <= q, q, 3 if n <= 3 else 2))
     return out, skipped
 
 
-def pool_indices(name, mode):
+def pool_indices(name, reps):
+    idx = A.REPS if reps else range(len(A.POOL))
     if A.base_name(name) in A.INTERNAL:   # literal elements must be constants
-        return [i for i, (t, v, how) in enumerate(A.POOL) if how == 'lit' and not A.is_array(v)]
-    return list(range(len(A.POOL)))
+        return [i for i in idx if A.POOL[i][2] == 'lit' and not A.is_array(A.POOL[i][1])]
+    return list(idx)
 
 
-def cases_of(name, n, mode, full, k):
-    idx = pool_indices(name, mode)
-    sizes = [n] if full else range(0, min(k, n) + 1)
-    if n == 0:
-        yield [name, 0, mode, []]
+def cases_of(name, n, mode, full, k, reps_from):
+    if full or n == 0:
+        for vals in itertools.product(pool_indices(name, False), repeat=n):
+            yield [name, n, mode, [list(pv) for pv in enumerate(vals)]]
+        if n:
+            yield [name, n, mode, []]                # the default call is part of every space
         return
-    for m in sizes:
+    for m in range(0, min(k, n) + 1):
+        idx = pool_indices(name, m >= reps_from)
         for pos in itertools.combinations(range(n), m):
             for vals in itertools.product(idx, repeat=m):
                 yield [name, n, mode, [list(pv) for pv in zip(pos, vals)]]
-    if full:                                         # the default call is part of every space
-        yield [name, n, mode, []]
 
 
 def run(ctx):
@@ -197,11 +341,14 @@ def run(ctx):
     if miss:
         sys.stderr.write('HARNESS-ERROR C11 completeness: no argument-count entry in ref/arity.py for %s\n' % ', '.join(miss))
         sys.exit(2)
+    au = audit()
+    if au['disagreements']:
+        sys.stderr.write('HARNESS-ERROR C11 oracle audit: ref/arity.py disagrees with Excel\'s cached values:\n  %s\n'
+                         % '\n  '.join(au['disagreements'][:20]))
+        sys.exit(2)
     pl, skipped = plan(ctx.tier, functions)
-    for name, n, mode, full, k in pl:
-        pass
     ctx.explore(run_case, (c for p in pl for c in cases_of(*p)), chunksize=128, label='function x count x tuples')
-    return {'functions': len(functions), 'function_count_pairs': len({(p[0], p[1]) for p in pl}), 'pool_size': len(A.POOL),
+    return {'oracle_audit': au, 'functions': len(functions), 'function_count_pairs': len({(p[0], p[1]) for p in pl}), 'pool_size': len(A.POOL),
             'full_product_up_to_arity': 3 if ctx.tier == 'thorough' else 2, 'deviation_bound': 3 if ctx.tier == 'thorough' else 2,
             'variadic_cap': 'min+3', 'unbindable_counts': skipped,
             'aliases_same_object_reduced_bound': sorted(n for n in functions if n != A.base_name(n)
